@@ -16,6 +16,8 @@ class C14(Machine):
     ID = "C14"
     FAMILY_WEIGHTS = {"sparse": 3, "dense": 1, "canal": 3, "modular": 4, "maa": 3, "cascade": 2, "maa_cascade": 2, "degenerate": 1, "maa_deadpad": 1, "inputs_mix": 2}
     NMAX = {"quick": 6, "thorough": 8}
+    FMTS = ("bnet", "aeon", "api")
+    SHUFFLE_ORDER = True
 
     def gen_params(self, sc, rng):
         sc["params"] = {"len": rng.randint(2, 9), "p_attr": rng.choice([0.35, 0.5]), "p_cache": 0.08, "p_pickle": 0.06}
@@ -83,6 +85,12 @@ class C14(Machine):
         r -= p["p_cache"]
         if r < p["p_pickle"]:
             return {"op": "pickle"}
+        if rng.random() < 0.08:
+            # read-only calls (summary, depth, find_node, percolated data ...) must leave every
+            # cached answer as it was
+            from ..machine import query_op
+
+            return query_op(world, rng)
         if rng.random() < 0.12:
             # the third way a stub becomes a skip node (besides skip_to_minimal / skip_remaining)
             from ..machine import rand_limit
